@@ -464,12 +464,7 @@ func denote(s *gen.Shape, raw any, env *gen.Env, depth int, shorthand map[*gen.S
 		}
 		return rej("%d is not an enum value", r.Val)
 	case gen.KStrEnum, gen.KTypedStrEnum:
-		if _, isStr := raw.(string); !isStr {
-			if _, ok, _ := exactInt(raw); ok {
-				// integer -> string enum: conversion unspecified, but whatever is accepted must be a member
-				return unsp("integer to string enum")
-			}
-		}
+		// (an integer is read as its decimal text, as for a plain string)
 		r := stringScalar(raw)
 		if r.V != Accept {
 			return r
